@@ -25,6 +25,9 @@ void splinetable<Alloc>::permuteDimensions(const std::vector<size_t>& permutatio
 		}
 	}
 	
+	if(ndim==0) //nothing to permute; the scratch arrays below would have length zero
+		return;
+	
 	//Note that we use regular pointers because these allocations will be 'local'
 	//to this function.
 	std::unique_ptr<uint32_t[]> t_order(new uint32_t[ndim]);
